@@ -36,6 +36,7 @@ var c12Hosts = []c12Named{
 	{"equal", "example.com"},
 	{"mixed-case", "EXAMPLE.com"},
 	{"different", "evil.org"},
+	{"different-t", "tevil.org"}, // differs from "evil.org" by a leading letter of "https://"
 	{"prefix", "example.co"},
 	{"suffix-lookalike", "notexample.com"},
 	{"host-as-prefix", "example.com.evil.org"},
@@ -67,6 +68,9 @@ var c12Patterns = []struct {
 	{"upper-case", []string{"EVIL.ORG"}},
 	{"star", []string{"*"}},
 	{"second-of-two", []string{"nomatch.invalid", "evil.org"}},
+	{"exact-t-prefixed", []string{"tevil.org"}}, // first letter is one of h,t,p,s
+	{"exact-scheme-chars", []string{"sph.tevil.org"}},
+	{"with-scheme", []string{"https://evil.org"}}, // a pattern is a host pattern, not a URL
 	{"malformed", []string{"["}},
 }
 
